@@ -38,6 +38,7 @@ class Users:
 
     def __init__(self, encrypted=True):
         self.encrypted = encrypted
+        rt.determinism(1 if encrypted else 2)
         be = rt.MemBackend()
         a = Repository(be, concurrent=2, cache_directory=None)
         with rt.silence():
@@ -212,6 +213,7 @@ def fresh_repo(U, user, be, concurrent=2, cache_directory=None):
 
 def run_case(encrypted, caller, owners, refs, orphans, op, delays=None):
     U = users(encrypted)
+    rt.determinism(7)
     objs, snaps = build_state(U, owners, refs, orphans)
     be = rt.MemBackend(objs, delays=delays)
     repo = fresh_repo(U, caller, be)
